@@ -449,7 +449,7 @@ class RouterRun:
             if exc is not None:
                 raise Violation("R-reg", "%s raised %s: %s" % (op, type(exc).__name__, exc),
                                 {"op": op, "exception": type(exc).__name__})
-            if ret is not pred_ret:
+            if bool(ret) != pred_ret:       # "reports success": truthiness, so 1/0 or numpy bools would do
                 raise Violation("R-reg", "%s%r returned %r, the rule set %s" % (
                     op, tuple(st.get(k) for k in ("i", "o", "n", "hid") if k in st), ret,
                     "changed" if pred_ret else "did not change"), {"op": op, "ret": repr(ret)})
